@@ -10,17 +10,24 @@
    Gen/ManifestCodecs.v by translator/C15.sh.
 
    Transcribed from the template (cmd/manifestcodegen/template_methods.tpl.go):
-     ReadFrom / ReadDataFrom   -> [dec_s] / [dec_f]     (error = None)
-     WriteTo (after Rehash)    -> [enc_s] / [enc_f], [write]
+     ReadFrom / ReadDataFrom   -> [dec_s] / [dec_f]     (any error = None)
+     WriteTo                   -> [write] = [rehash] then [enc_s] / [enc_f]
      <F>TotalSize / TotalSize  -> [size_f] / [size_s]
      <F>Offset                 -> [offset_s]
-     Rehash (tags rehashValue, var0, var1) -> [rehash]
-     container ReadFrom / WriteTo (element dispatch by structure ID)
-                               -> [cdec] / [cenc]
-   binary.Read on a short stream is an error (io.EOF / io.ErrUnexpectedEOF),
-   a zero-length read succeeds at end of stream (as io.ReadFull does).
-   Not modelled: Validate, New* (defaults), PrettyString, JSON, Print,
-   signature creation/verification, error *messages* (one error class). *)
+     Rehash (tags rehashValue, var0, var1; nested WriteTo calls rehash the
+             sub-structures)   -> [apply_rh] / [rehash_s] / [rehash]
+     container ReadFrom (StructInfo headers until end of stream, dispatch on the
+       structure ID, order / multiplicity / missing checks), WriteTo, Rehash
+       (rehashedBPMH)          -> [cdec_loop] / [cread], [cwrite], [capply_rh]
+   countValue tags are count expressions [cexpr] over the fields decoded before
+   the blob (translated from keyDataSize, BitSize.InBytes, hashSize, ...).
+   binary.Read on a short stream is an error (io.EOF / io.ErrUnexpectedEOF);
+   a zero-length read succeeds at end of stream (as io.ReadFull does); writes to
+   the in-memory writer never fail.  uintN(len(x)) truncation is modelled by
+   [le_enc] (mod 256^n), uint16(s.TotalSize()) by [mod wmax].
+   Not modelled: Validate, New<S> (default/require values), RehashRecursive,
+   PrettyString, JSON, Print, signature creation/verification, error messages
+   (one error class), reading into a receiver that is not the zero value. *)
 From Fiano Require Import Base.Bytes.
 Open Scope Z_scope.
 
